@@ -208,34 +208,48 @@ fn walk_spec(d: &ExecutableDocument, set: &ex::SelectionSet, all: bool, seen: &m
 
 // ---------------------------------------------------------------- oracle: valid documents
 
-fn value_vars(v: &ast::Value, out: &mut BTreeSet<String>) {
+/// the variables of a value.  `hidden`: those inside an object literal given where a custom scalar is expected
+/// (`value_of_correct_type` accepts any object for a custom scalar without looking inside)
+fn value_vars(v: &ast::Value, custom: bool, in_obj: bool, out: &mut BTreeSet<String>, hidden: &mut BTreeSet<String>) {
     match v {
-        ast::Value::Variable(n) => { out.insert(n.to_string()); }
-        ast::Value::List(l) => for x in l { value_vars(x, out); },
-        ast::Value::Object(l) => for (_, x) in l { value_vars(x, out); },
+        ast::Value::Variable(n) => { if custom && in_obj { hidden.insert(n.to_string()); } else { out.insert(n.to_string()); } }
+        ast::Value::List(l) => for x in l { value_vars(x, custom, in_obj, out, hidden); },
+        ast::Value::Object(l) => for (_, x) in l { value_vars(x, custom, true, out, hidden); },
         _ => {}
     }
 }
-fn dirs_vars(ds: &ast::DirectiveList, out: &mut BTreeSet<String>) { for d in ds.iter() { for a in &d.arguments { value_vars(&a.value, out); } } }
+fn is_custom_scalar(s: &Schema, ty: &str) -> bool { matches!(s.types.get(ty), Some(ExtendedType::Scalar(sc)) if !sc.is_built_in()) }
+fn dirs_vars(s: &Schema, ds: &ast::DirectiveList, out: &mut BTreeSet<String>, hidden: &mut BTreeSet<String>) {
+    for d in ds.iter() {
+        let def = s.directive_definitions.get(&d.name);
+        for a in &d.arguments {
+            let custom = def.and_then(|df| df.arguments.iter().find(|x| x.name == a.name)).is_some_and(|x| is_custom_scalar(s, x.ty.inner_named_type().as_str()));
+            value_vars(&a.value, custom, false, out, hidden);
+        }
+    }
+}
 
-fn valid_sels(ctx: &mut Ctx, s: &Schema, d: &ExecutableDocument, input: &str, set: &ex::SelectionSet, seen: &mut HashSet<String>, vars: &mut BTreeSet<String>) {
+fn valid_sels(ctx: &mut Ctx, s: &Schema, d: &ExecutableDocument, input: &str, set: &ex::SelectionSet, seen: &mut HashSet<String>, vars: &mut BTreeSet<String>, hidden: &mut BTreeSet<String>) {
     for sel in &set.selections {
         match sel {
             ex::Selection::Field(f) => {
-                dirs_vars(&f.directives, vars);
-                for a in &f.arguments { value_vars(&a.value, vars); }
+                dirs_vars(s, &f.directives, vars, hidden);
+                for a in &f.arguments {
+                    let custom = f.definition.arguments.iter().find(|x| x.name == a.name).is_some_and(|x| is_custom_scalar(s, x.ty.inner_named_type().as_str()));
+                    value_vars(&a.value, custom, false, vars, hidden);
+                }
                 let inner = f.definition.ty.inner_named_type();
                 let comp = is_composite(s, inner.as_str());
                 if comp && f.selection_set.selections.is_empty() { ctx.fail("valid-composite-without-subselection", input, &format!("valid document: field `{}` of composite type `{inner}` has no sub-selection", f.name)); }
                 if !comp && !f.selection_set.selections.is_empty() { ctx.fail("valid-leaf-with-subselection", input, &format!("valid document: field `{}` of leaf type `{inner}` has a sub-selection", f.name)); }
-                valid_sels(ctx, s, d, input, &f.selection_set, seen, vars);
+                valid_sels(ctx, s, d, input, &f.selection_set, seen, vars, hidden);
             }
-            ex::Selection::InlineFragment(i) => { dirs_vars(&i.directives, vars); valid_sels(ctx, s, d, input, &i.selection_set, seen, vars); }
+            ex::Selection::InlineFragment(i) => { dirs_vars(s, &i.directives, vars, hidden); valid_sels(ctx, s, d, input, &i.selection_set, seen, vars, hidden); }
             ex::Selection::FragmentSpread(sp) => {
-                dirs_vars(&sp.directives, vars);
+                dirs_vars(s, &sp.directives, vars, hidden);
                 match d.fragments.get(&sp.fragment_name) {
                     None => ctx.fail("valid-undefined-spread", input, &format!("valid document spreads undefined fragment `{}`", sp.fragment_name)),
-                    Some(fr) => if seen.insert(sp.fragment_name.to_string()) { dirs_vars(&fr.directives, vars); valid_sels(ctx, s, d, input, &fr.selection_set, seen, vars); },
+                    Some(fr) => if seen.insert(sp.fragment_name.to_string()) { dirs_vars(s, &fr.directives, vars, hidden); valid_sels(ctx, s, d, input, &fr.selection_set, seen, vars, hidden); },
                 }
             }
         }
@@ -275,7 +289,9 @@ fn has_cycle(d: &ExecutableDocument) -> Option<String> {
 
 static DOCN: std::sync::atomic::AtomicUsize = std::sync::atomic::AtomicUsize::new(0);
 
-fn one(ctx: &mut Ctx, views: &[View], defs: &[Def], family: &str) {
+fn one(ctx: &mut Ctx, views: &[View], defs: &[Def], family: &str) { one_on(ctx, views, defs, family, None) }
+
+fn one_on(ctx: &mut Ctx, views: &[View], defs: &[Def], family: &str, only: Option<usize>) {
     let text = p20::doc_text(defs);
     let text1 = text.replace('\n', " ");
     ctx.stat(&format!("family_{family}"));
@@ -283,7 +299,9 @@ fn one(ctx: &mut Ctx, views: &[View], defs: &[Def], family: &str) {
     let docn = DOCN.fetch_add(1, std::sync::atomic::Ordering::Relaxed);
     for (vi, v) in views.iter().enumerate() {
         // the first schema always, each of the others for every second document (all of them for the fixed inputs)
-        if vi > 0 && !family.starts_with("fixed") && (docn + vi) % 2 != 0 { continue; }
+        if let Some(o) = only { if vi != o { continue; } }
+        else if vi >= 3 { continue; }
+        else if vi > 0 && !family.starts_with("fixed") && (docn + vi) % 2 != 0 { continue; }
         ctx.stat(&format!("schema_{}", v.name));
         let built = catch(|| match ast_doc.to_executable(&v.schema) { Ok(d) => (d, true), Err(e) => (e.partial, false) });
         let (doc, build_ok) = match built { Ok(x) => x, Err(p) => { ctx.fail("to-executable-panic", &text1, &p); continue; } };
@@ -333,12 +351,19 @@ fn one(ctx: &mut Ctx, views: &[View], defs: &[Def], family: &str) {
         if valid {
             ctx.stat("valid_documents");
             for op in doc.operations.iter() {
-                let mut used = BTreeSet::new();
-                dirs_vars(&op.directives, &mut used);
-                valid_sels(ctx, &v.schema, &doc, &input, &op.selection_set, &mut HashSet::new(), &mut used);
+                // per operation: everything the operation reaches through fragments, against ITS variable definitions
+                let (mut used, mut hidden) = (BTreeSet::new(), BTreeSet::new());
+                dirs_vars(&v.schema, &op.directives, &mut used, &mut hidden);
+                valid_sels(ctx, &v.schema, &doc, &input, &op.selection_set, &mut HashSet::new(), &mut used, &mut hidden);
+                if doc.operations.iter().count() > 1 && !doc.fragments.is_empty() && !used.is_empty() { ctx.stat("valid_multi_operation_with_fragment_variables"); }
                 for u in used {
                     if !op.variables.iter().any(|vd| vd.name.as_str() == u) {
                         ctx.fail("valid-undefined-variable", &input, &format!("valid document: operation {:?} uses `${u}` without defining it", op.name.as_ref().map(|n| n.as_str())));
+                    }
+                }
+                for u in hidden {
+                    if !op.variables.iter().any(|vd| vd.name.as_str() == u) {
+                        ctx.fail("valid-undefined-variable-in-custom-scalar-object", &input, &format!("valid document: operation {:?} uses `${u}` (inside an object literal given to a custom scalar) without defining it", op.name.as_ref().map(|n| n.as_str())));
                     }
                 }
             }
@@ -385,10 +410,106 @@ fn fixed() -> Vec<Vec<Def>> {
     ]
 }
 
+const SCHEMA_J: &str = r#"
+scalar JSON
+directive @j(a: JSON, l: [JSON]) repeatable on FIELD | QUERY | FRAGMENT_SPREAD | INLINE_FRAGMENT | FRAGMENT_DEFINITION
+type Query { j(a: JSON, l: [JSON], i: Int): Int a: Int o: A }
+type A { a: Int j(a: JSON): Int o: A }
+"#;
+
+fn varg(name: &str, v: p20::Val) -> p20::Arg { p20::Arg { name: name.into(), value: v } }
+fn fa(alias: &str, name: &str, args: Vec<p20::Arg>, dirs: Vec<p20::Dir>, sub: Vec<Sel>) -> Sel {
+    Sel::Field { alias: Some(alias.into()), name: name.into(), dirs, args, sub }
+}
+
+/// several operations sharing fragments that use variables; `break_later`: one operation other than the first
+/// does not define a variable that it reaches through a fragment
+fn gen_shared(r: &mut Rng, break_later: bool) -> Vec<Def> {
+    let nf = 1 + r.below(3);
+    let mut counter = 0usize;
+    let mut fresh = |p: &str| { counter += 1; format!("{p}{counter}") };
+    let var = |r: &mut Rng| -> (String, char) { match r.below(3) { 0 => ("i0".into(), 'i'), 1 => ("i1".into(), 'i'), _ => ("b0".into(), 'b') } };
+    let mut tcs: Vec<&str> = vec![];
+    for _ in 0..nf { tcs.push(if r.chance(1, 2) { "Query" } else { "A" }); }
+    let mut frags: Vec<p20::Frag> = vec![];
+    for j in 0..nf {
+        let mut sels = vec![];
+        for _ in 0..1 + r.below(2) {
+            let (v, k) = var(r);
+            let use_dir = k == 'b' || r.chance(1, 3);
+            if k == 'b' {
+                sels.push(fa(&fresh("k"), "a", vec![], vec![p20::Dir { name: (*r.pick(&["skip", "include"])).into(), args: vec![varg("if", p20::Val::Var(v))] }], vec![]));
+            } else if use_dir {
+                sels.push(fa(&fresh("k"), "a", vec![], vec![p20::Dir { name: "c".into(), args: vec![varg(if r.chance(1, 2) { "x" } else { "l" }, if r.chance(1, 2) { p20::Val::Var(v.clone()) } else { p20::Val::List(vec![v.clone()]) })] }], vec![]));
+                if let Some(Sel::Field { dirs, .. }) = sels.last_mut() { if let Some(d) = dirs.last_mut() { if d.args[0].name == "x" { d.args[0].value = p20::Val::Var(v); } else { d.args[0].value = p20::Val::List(vec![v]); } } }
+            } else {
+                sels.push(fa(&fresh("k"), "b", vec![varg("x", p20::Val::Var(v))], vec![], vec![]));
+            }
+        }
+        // spread a later fragment (no cycles)
+        for j2 in j + 1..nf {
+            if !r.chance(1, 2) { continue; }
+            let sp = Sel::Spread { frag: format!("F{j2}"), dirs: vec![] };
+            if tcs[j2] == tcs[j] { sels.push(sp); } else if tcs[j2] == "A" { sels.push(fa(&fresh("k"), "o", vec![], vec![], vec![sp])); }
+        }
+        frags.push(p20::Frag { name: format!("F{j}"), tc: tcs[j].into(), dirs: vec![], sels });
+    }
+    let nops = 2 + r.below(2);
+    let mut ops: Vec<p20::Op> = vec![];
+    for i in 0..nops {
+        let mut sels = vec![];
+        for j in 0..nf {
+            if !(r.chance(1, 2) || i == 0) { continue; }
+            let sp = Sel::Spread { frag: format!("F{j}"), dirs: vec![] };
+            if tcs[j] == "Query" { sels.push(sp); } else { sels.push(fa(&fresh("k"), "o", vec![], vec![], vec![sp])); }
+        }
+        if sels.is_empty() || r.chance(1, 3) { sels.push(fa(&fresh("k"), "a", vec![], vec![], vec![])); }
+        ops.push(p20::Op { ty: 0, name: Some(format!("Op{i}")), vars: vec![], dirs: vec![], sels });
+    }
+    let victim = if break_later { 1 + r.below(nops - 1) } else { usize::MAX };
+    for (i, o) in ops.iter_mut().enumerate() {
+        let mut used = BTreeSet::new();
+        p20::collect_vars(&frags, &o.sels, &o.dirs, &mut used);
+        let mut used: Vec<String> = used.into_iter().collect();
+        if i == victim && !used.is_empty() { let k = r.below(used.len()); used.remove(k); }
+        for v in used { o.vars.push(p20::VarDef { ty: if v.starts_with('b') { "Boolean!".into() } else { "Int".into() }, name: v, dirs: vec![] }); }
+    }
+    let mut defs: Vec<Def> = ops.into_iter().map(Def::Op).collect();
+    for f in frags { let at = if r.chance(1, 3) { r.below(defs.len() + 1) } else { defs.len() }; defs.insert(at, Def::Frag(f)); }
+    defs
+}
+
+/// documents on the custom-scalar schema: variables inside lists and object literals given to a custom scalar
+fn fixed_custom_scalar() -> Vec<Vec<Def>> {
+    let j = |args: Vec<p20::Arg>| Sel::Field { alias: None, name: "j".into(), dirs: vec![], args, sub: vec![] };
+    let qv = |vars: Vec<&str>, sels: Vec<Sel>| Def::Op(p20::Op { ty: 0, name: Some("Q".into()), vars: vars.into_iter().map(|v| p20::VarDef { name: v.into(), ty: "Int".into(), dirs: vec![] }).collect(), dirs: vec![], sels });
+    vec![
+        vec![qv(vec![], vec![j(vec![varg("a", p20::Val::Obj(vec!["nope".into()]))])])],
+        vec![qv(vec![], vec![j(vec![varg("a", p20::Val::List(vec!["nope".into()]))])])],
+        vec![qv(vec![], vec![j(vec![varg("a", p20::Val::Var("nope".into()))])])],
+        vec![qv(vec![], vec![j(vec![varg("l", p20::Val::List(vec!["nope".into()]))])])],
+        vec![qv(vec!["i0"], vec![j(vec![varg("i", p20::Val::Var("i0".into())), varg("a", p20::Val::Obj(vec!["nope".into()]))])])],
+        vec![qv(vec!["i0"], vec![j(vec![varg("i", p20::Val::Var("i0".into()))]), Sel::Spread { frag: "F".into(), dirs: vec![] }]),
+             Def::Frag(p20::Frag { name: "F".into(), tc: "Query".into(), dirs: vec![], sels: vec![Sel::Field { alias: Some("k".into()), name: "a".into(), args: vec![], sub: vec![],
+                dirs: vec![p20::Dir { name: "j".into(), args: vec![varg("a", p20::Val::Obj(vec!["nope".into()]))] }] }] })],
+    ]
+}
+
 pub fn run(ctx: &mut Ctx) {
     let mut views = vec![];
-    for (n, src) in [("A", p20::SCHEMA_A), ("B", p20::SCHEMA_B), ("C", p20::SCHEMA_C)] {
+    for (n, src) in [("A", p20::SCHEMA_A), ("B", p20::SCHEMA_B), ("C", p20::SCHEMA_C), ("J", SCHEMA_J)] {
         match make_view(n, src) { Ok(v) => views.push(v), Err(e) => { ctx.fail("generator-schema-invalid", n, &e.replace('\n', " ")); return; } }
+    }
+    for d in fixed_custom_scalar() { one_on(ctx, &views, &d, "fixedJ", Some(3)); }
+    // fragment graphs: acyclic entry chains leading into a cycle (the cycle rule must not depend on which fragment is validated first)
+    let n_cyc = if ctx.thorough { 3_000 } else { 300 };
+    for d in p20::cycle_graph_family(&mut ctx.rng, n_cyc) { one_on(ctx, &views, &d, "cyclegraph", Some(0)); }
+    // several operations sharing fragments that use variables (validation of a fragment is per operation)
+    let n_shared = if ctx.thorough { 12_000 } else { 1_500 };
+    for i in 0..n_shared {
+        let brk = i % 3 == 2;
+        let d = gen_shared(&mut ctx.rng, brk);
+        one_on(ctx, &views, &d, if brk { "shared_broken" } else { "shared" }, Some(if i % 5 == 4 { 2 } else { 0 }));
     }
     for d in fixed() { one(ctx, &views, &d, "fixed"); }
     for d in p20::fixed() { one(ctx, &views, &d, "fixed20"); }
